@@ -778,52 +778,163 @@ theorem rank_spec (nodes : List Key) (k : Key) (hk : k ∈ nodes) :
     show (↑(nodes.idxOf k) : Int) ≠ -1; omega
   · rw [getI?_ofNat, List.getElem?_eq_getElem hlt, List.getElem_idxOf hlt]
 
-/-- **SCRIP positions**: looking every decoded index up in the decoded node list gives back
-    exactly the source corner, for every face and every corner position (so faces keep their
-    number, order and cyclic order of positions; node numbering is the reader's own). -/
-theorem scrip_positions (corners : List (List Key)) :
-    (decodeScrip corners).map (·.map (getI? (scripNodes corners))) = corners.map (·.map some) := by
+theorem rank_inj (nodes : List Key) (a b : Key) (ha : a ∈ nodes) (hb : b ∈ nodes)
+    (h : rank nodes a = rank nodes b) : a = b := by
+  unfold rank at h
+  have h' : nodes.idxOf a = nodes.idxOf b := by simpa using h
+  have hla : nodes.idxOf a < nodes.length := List.idxOf_lt_length_iff.mpr ha
+  have hlb : nodes.idxOf b < nodes.length := List.idxOf_lt_length_iff.mpr hb
+  have e1 : nodes[nodes.idxOf a] = a := List.getElem_idxOf hla
+  have e2 : nodes[nodes.idxOf b] = b := List.getElem_idxOf hlb
+  rw [← e1, ← e2]; simp [h']
+
+theorem takeWhile_replicate_append (p : Int → Bool) (n : Nat) (x : Int) (l : List Int)
+    (hx : p x = true) :
+    (List.replicate n x ++ l).takeWhile p = List.replicate n x ++ l.takeWhile p := by
+  induction n with
+  | zero => simp
+  | succ n ih => simp [List.replicate_succ, hx, ih]
+
+/-- a row that ends in `k+1` copies of `y`, the entry before them being different: exactly the
+    last `k` copies are turned into `-1` -/
+theorem scripPad_run (pre : List Int) (y : Int) (k : Nat)
+    (hpre : ∀ b, pre.getLast? = some b → b ≠ y) :
+    scripPad (pre ++ List.replicate (k + 1) y) = pre ++ [y] ++ List.replicate k (-1) := by
+  have hlast : (pre ++ List.replicate (k + 1) y).getLastD 0 = y := by
+    rw [List.replicate_succ', ← List.append_assoc]; simp
+  have htw : pre.reverse.takeWhile (fun x => x == y) = [] := by
+    cases hr : pre.reverse with
+    | nil => rfl
+    | cons b rest =>
+      have hb : pre.getLast? = some b := by rw [← List.head?_reverse, hr]; rfl
+      have hne := hpre b hb
+      simp [hne]
+  have hrun : lastRun (pre ++ List.replicate (k + 1) y) = k + 1 := by
+    unfold lastRun
+    rw [hlast, List.reverse_append, List.reverse_replicate,
+      takeWhile_replicate_append _ _ _ _ (by simp), htw]
+    simp
+  unfold scripPad
+  rw [hrun]
+  simp only [Nat.add_sub_cancel, List.length_append, List.length_replicate]
+  congr 1
+  have : pre ++ List.replicate (k + 1) y = (pre ++ [y]) ++ List.replicate k y := by
+    rw [List.replicate_succ]; simp
+  rw [this]
+  apply List.take_left'
+  simp; omega
+
+/-- one SCRIP row: the face's corners, then its last corner repeated up to width `w` -/
+theorem scrip_row (nodes : List Key) (w : Nat) (f : List Key) (hne : f ≠ [])
+    (hd : LastDistinct f = true) (hmem : ∀ k ∈ f, k ∈ nodes) :
+    ((scripPad ((encScripRow w f).map (rank nodes))).map (fun x => if x = -1 then FILL else x)).map
+        (getI? nodes)
+      = f.map some ++ List.replicate (w - f.length) none := by
+  obtain ⟨g, a, rfl⟩ : ∃ g a, f = g ++ [a] :=
+    ⟨_, _, (List.dropLast_concat_getLast hne).symm⟩
+  generalize hk : w - (g ++ [a]).length = k
+  have henc : (encScripRow w (g ++ [a])).map (rank nodes)
+      = g.map (rank nodes) ++ List.replicate (k + 1) (rank nodes a) := by
+    unfold encScripRow
+    rw [hk]
+    simp [List.replicate_succ]
+  have hpre : ∀ b, (g.map (rank nodes)).getLast? = some b → b ≠ rank nodes a := by
+    intro b hb
+    rw [List.getLast?_map] at hb
+    cases hc : g.getLast? with
+    | none => rw [hc] at hb; cases hb
+    | some c =>
+      rw [hc] at hb
+      simp only [Option.map_some, Option.some.injEq] at hb
+      subst hb
+      have hcg : c ∈ g := List.mem_of_getLast? hc
+      have hrev : g.reverse.head? = some c := by rw [List.head?_reverse]; exact hc
+      have hca : a ≠ c := by
+        unfold LastDistinct at hd
+        rw [List.reverse_append] at hd
+        cases hr : g.reverse with
+        | nil => rw [hr] at hrev; cases hrev
+        | cons c' rest =>
+          rw [hr] at hrev hd
+          simp only [List.head?_cons, Option.some.injEq] at hrev
+          subst hrev
+          simpa using hd
+      intro heq
+      exact hca (rank_inj nodes a c (hmem a (by simp)) (hmem c (by simp [hcg])) heq.symm)
+  rw [henc, scripPad_run _ _ _ hpre]
+  simp only [List.map_append, List.map_map, List.map_replicate, List.map_cons, List.map_nil]
+  have hkey : ∀ kk ∈ g ++ [a],
+      getI? nodes (if rank nodes kk = -1 then FILL else rank nodes kk) = some kk := by
+    intro kk hkk
+    obtain ⟨h1, h2, _, _⟩ := rank_spec nodes kk (hmem kk hkk)
+    rw [if_neg h1]; exact h2
+  congr 1
+  · congr 1
+    · apply List.map_congr_left
+      intro kk hkk
+      exact hkey kk (by simp [hkk])
+    · rw [hkey a (by simp)]
+
+/-- **SCRIP positions** (repaired reader), for the dialect SCRIP uses for mixed meshes: a face
+    with fewer corners than `grid_corners` repeats its last corner.  Looking every decoded index
+    up in the decoded node list gives back exactly the face's real corners in order, then only
+    the standard fill — for EVERY face (short or of full width) whose last two corners are
+    different positions.  Faces keep their number and order; node numbering is the reader's. -/
+theorem scrip_positions (w : Nat) (faces : List (List Key))
+    (h : ∀ f ∈ faces, f ≠ [] ∧ f.length ≤ w ∧ LastDistinct f = true) :
+    (decodeScrip (faces.map (encScripRow w))).map
+        (·.map (getI? (scripNodes (faces.map (encScripRow w)))))
+      = faces.map (fun f => f.map some ++ List.replicate (w - f.length) none) := by
   unfold decodeScrip
   simp only []
-  rw [List.map_map]
+  rw [List.map_map, List.map_map]
   apply List.map_congr_left
-  intro row hrow
-  simp only [Function.comp, List.map_map]
-  apply List.map_congr_left
+  intro f hf
+  simp only [Function.comp]
+  apply scrip_row _ w f (h f hf).1 (h f hf).2.2
   intro k hk
-  have hmem : k ∈ scripNodes corners := by
-    unfold scripNodes
-    rw [mem_uniqPair, List.mem_flatten]
-    exact ⟨row, hrow, hk⟩
-  obtain ⟨h1, h2, _, _⟩ := rank_spec _ k hmem
-  simp only [Function.comp, if_neg h1, h2]
+  unfold scripNodes
+  rw [mem_uniqPair, List.mem_flatten]
+  exact ⟨encScripRow w f, List.mem_map.mpr ⟨f, hf, rfl⟩, by
+    unfold encScripRow; exact List.mem_append_left _ hk⟩
 
 /-- the decoded node coordinates are pairwise distinct -/
 theorem scrip_nodes_nodup (corners : List (List Key)) : (scripNodes corners).Nodup :=
   nodup_uniqPair _
 
-/-- every decoded index is in range and none is padding -/
+/-- for ANY corner table: every decoded entry is the standard fill or an index in range -/
 theorem scrip_in_range (corners : List (List Key)) :
-    ∀ r ∈ decodeScrip corners, ∀ x ∈ r, 0 ≤ x ∧ x < Int.ofNat (scripNodes corners).length := by
+    ∀ r ∈ decodeScrip corners, ∀ x ∈ r,
+      x = FILL ∨ (0 ≤ x ∧ x < Int.ofNat (scripNodes corners).length) := by
   intro r hr x hx
   unfold decodeScrip at hr
   simp only [] at hr
   rcases List.mem_map.mp hr with ⟨row, hrow, rfl⟩
-  rcases List.mem_map.mp hx with ⟨k, hk, rfl⟩
-  have hmem : k ∈ scripNodes corners := by
-    unfold scripNodes
-    rw [mem_uniqPair, List.mem_flatten]
-    exact ⟨row, hrow, hk⟩
-  obtain ⟨h1, _, h3, h4⟩ := rank_spec _ k hmem
-  rw [if_neg h1]; exact ⟨h3, h4⟩
+  rcases List.mem_map.mp hx with ⟨y, hy, rfl⟩
+  unfold scripPad at hy
+  rcases List.mem_append.mp hy with hy | hy
+  · have hy' := List.mem_of_mem_take hy
+    rcases List.mem_map.mp hy' with ⟨k, hk, rfl⟩
+    have hmem : k ∈ scripNodes corners := by
+      unfold scripNodes
+      rw [mem_uniqPair, List.mem_flatten]
+      exact ⟨row, hrow, hk⟩
+    obtain ⟨h1, _, h3, h4⟩ := rank_spec _ k hmem
+    rw [if_neg h1]; exact Or.inr ⟨h3, h4⟩
+  · have := (List.mem_replicate.mp hy).2
+    subst this
+    left; simp
 
 example : decodeScrip [[(0, 0), (10, 0), (10, 10)], [(10, 0), (20, 0), (10, 10)]]
     = [[0, 1, 2], [1, 3, 2]] := by decide
 
-/-- AS-IS (known finding): SCRIP pads a face that has fewer corners by repeating its last
-    corner; the reader keeps the repeat as a fourth corner instead of padding. -/
+example : decodeScrip [[(0, 0), (10, 0), (10, 10), (0, 10)], encScripRow 4 [(10, 0), (20, 0), (10, 10)]]
+    = [[0, 2, 3, 1], [2, 4, 3, FILL]] := by decide
+
+/-- AS-IS (regression witness, repaired in /repo by 92c49616): the snapshot's reader kept the
+    repeated last corner of a short face as a fourth corner instead of padding. -/
 theorem asis_scrip_keeps_repeated_corner :
-    (decodeScrip [[(0, 0), (10, 0), (10, 10), (0, 10)], [(10, 0), (20, 0), (10, 10), (10, 10)]]).map
+    (decodeScripAsIs [[(0, 0), (10, 0), (10, 10), (0, 10)], [(10, 0), (20, 0), (10, 10), (10, 10)]]).map
       (fun r => (faceOf r).length) = [4, 4] := by decide
 
 /-! ### polygon rings (GeoJSON / shapefile) -/
